@@ -2,9 +2,8 @@
    tree_sum / tree_mean / tree_clip_by_global_norm are the definitions translated on
    every run from fedjax/core/tree_util.py (gen/Gen_tree_util.v); a pytree is its
    flattened coordinate list over NanQ.t.  Hand-written here: mean_aggregator.apply
-   (drops the client id, calls tree_mean), the IEEE special case of clipping a zero
-   tree (c / 0 = +inf, min(1, +inf) = 1, which NanQ cannot express), the ownership
-   script of tree_sum / tree_mean over a small store, and the correspondence predicate. *)
+   (drops the client id, calls tree_mean), the ownership script of tree_sum / tree_mean
+   over a small store, and the correspondence predicate. *)
 From Coq Require Import ZArith QArith List Bool.
 From FV Require Import Common.ListX Common.CMonoid Common.NanQ Common.QVec Common.WMean gen.Gen_tree_util.
 Import ListNotations.
@@ -21,21 +20,9 @@ Definition mean_aggregator_apply {I S} (clients : list (I * tree * NanQ.t)) (sta
   (tree_mean (map extract_params_and_weight clients), state).
 
 (* clipping with the global norm supplied (sqrt is not modelled): `norm` is the value of
-   tree_l2_norm(pytree).  Norm zero: the float computation is max_norm / 0 = +inf for
-   max_norm > 0, min(1, +inf) = 1, so the tree is returned scaled by 1; for
-   max_norm <= 0 the quotient is NaN / -inf and every leaf becomes NaN. *)
-Definition all_nan (x : tree) : tree := map (fun _ => NanQ.nan) x.
+   tree_l2_norm(pytree); the translated function is used as it is *)
 Definition clip_model (norm : NanQ.t) (x : tree) (c : NanQ.t) : tree :=
-  match norm with
-  | Some n =>
-      if Qeq_bool n 0 then
-        match c with
-        | Some cq => if Qltb 0 cq then map (fun t => NanQ.mul NanQ.one t) x else all_nan x
-        | None => all_nan x
-        end
-      else tree_clip_by_global_norm (fun _ => norm) x c
-  | None => tree_clip_by_global_norm (fun _ => norm) x c
-  end.
+  tree_clip_by_global_norm (fun _ => norm) x c.
 
 (* ---------------- ownership script ----------------
    Locations are natural numbers; a store maps a location to (value, deleted flag).
